@@ -266,6 +266,9 @@ def _hyp_run(part, ctx, tier, seed, shard, n_examples):
                 st_.calls += 1
                 if st_.t0 is None:
                     st_.t0 = time.time()
+                    _arm_shrink(tier)
+                    if len(text) > 20000:
+                        raise AbortShrink()      # a very large example: report it as it is
                 if st_.calls > budget or time.time() - st_.t0 > SHRINK_SECONDS[tier]:
                     raise AbortShrink()
                 raise
@@ -279,16 +282,20 @@ def _hyp_run(part, ctx, tier, seed, shard, n_examples):
                 given(strategy)(body)))
         try:
             test()
+            _end_shrink()
             break
         except AbortShrink:
-            pass
+            _end_shrink()
         except Violation:
-            pass
+            _end_shrink()
         except (FailedHealthCheck, Unsatisfiable) as e:
+            _end_shrink()
             raise HarnessError(f"generator health check failed in part {part.name}: {e}") from e
         except HarnessError:
+            _end_shrink()
             raise
         except Exception as e:  # Flaky etc.
+            _end_shrink()
             if st_.best is None:
                 raise HarnessError(f"hypothesis error in part {part.name}: {type(e).__name__}: {e}") from e
         if st_.best is None:
@@ -317,8 +324,35 @@ def _enum_run(part, ctx, tier, shard, nshards):
 WALL_BUDGET = {"quick": 600, "thorough": 4 * 3600}
 
 
+_ALARM = {"mode": "wall", "wall_end": None}
+
+
 def _on_alarm(signum, frame):
+    if _ALARM["mode"] == "shrink":
+        # shrinking took too long (possibly inside the shrinker itself, on a large example): keep the best case seen so far
+        _ALARM["mode"] = "wall"
+        _rearm_wall()
+        raise AbortShrink()
     raise HarnessError("wall-clock budget overrun (inconclusive, not a violation)")
+
+
+def _rearm_wall():
+    import signal
+    if _ALARM["wall_end"] is not None:
+        signal.alarm(max(1, int(_ALARM["wall_end"] - time.time())))
+
+
+def _end_shrink():
+    if _ALARM["mode"] == "shrink":
+        _ALARM["mode"] = "wall"
+        _rearm_wall()
+
+
+def _arm_shrink(tier):
+    import signal
+    if _ALARM["wall_end"] is not None:
+        _ALARM["mode"] = "shrink"
+        signal.alarm(int(SHRINK_SECONDS[tier]) + 2)
 
 
 def worker(args):
@@ -327,7 +361,10 @@ def worker(args):
     try:
         import signal
         signal.signal(signal.SIGALRM, _on_alarm)
-        signal.alarm(int(os.environ.get("VERIF_WALL_BUDGET", WALL_BUDGET[tier])))
+        budget = int(os.environ.get("VERIF_WALL_BUDGET", WALL_BUDGET[tier]))
+        _ALARM["wall_end"] = time.time() + budget
+        _ALARM["mode"] = "wall"
+        signal.alarm(budget)
         load()
         mod = importlib.import_module(f"checks.{prop.lower()}")
         part = {p.name: p for p in mod.parts(tier)}[part_name]
